@@ -18,7 +18,7 @@ ROOT = os.path.dirname(os.path.dirname(os.path.abspath(__file__)))
 REPO = os.environ.get("VERIF_REPO", "/repo")
 BUILD = os.path.join(ROOT, "build")
 COQ = os.path.join(ROOT, "coq")
-EVID = os.path.join(ROOT, "evidence")
+EVID = os.path.join(ROOT, "evidence") if os.environ.get("VERIF_REPO", "/repo") == "/repo" else os.path.join(ROOT, "build", "evidence-alt")
 REPLAY = os.path.join(EVID, "replay")
 
 GOENV = dict(os.environ)
@@ -241,18 +241,34 @@ def build_model(comp, extract_v, lib_files, main_ml, exe="model", timeout=900):
         return True, exe_path, "== model %s: built" % comp
 
 
+ALT = REPO != "/repo"   # checks pointed at another copy of the library (VERIF_REPO): separate overlay and harness module
+
+
 def overlay_json():
-    """build the overlay for the current working tree of /repo (see lib/mkoverlay.py)"""
+    """build the overlay for the current working tree of the library (see lib/mkoverlay.py)"""
     import mkoverlay
     with Lock("overlay"):
-        return mkoverlay.make(REPO, os.path.join(BUILD, "overlay"))
+        return mkoverlay.make(REPO, os.path.join(BUILD, "overlay-alt" if ALT else "overlay"))
+
+
+def harness_dir():
+    hd = os.path.join(ROOT, "harness")
+    if not ALT:
+        return hd
+    alt = os.path.join(BUILD, "harness-alt")
+    with Lock("harness-alt"):
+        sh(["rsync", "-a", "--delete", hd + "/", alt + "/"], timeout=120)
+        gm = os.path.join(alt, "go.mod")
+        txt = open(gm).read().replace("=> /repo", "=> " + REPO)
+        open(gm, "w").write(txt)
+    return alt
 
 
 def build_harness(cmd, overlay=None, tags=None, race=False, timeout=900):
-    """go build of one harness command against /repo's working tree. Returns (ok, path, log)."""
-    hd = os.path.join(ROOT, "harness")
-    out_path = os.path.join(BUILD, "bin", cmd + ("-race" if race else ""))
-    with Lock("go." + cmd):
+    """go build of one harness command against the library's working tree. Returns (ok, path, log)."""
+    hd = harness_dir()
+    out_path = os.path.join(BUILD, "bin-alt" if ALT else "bin", cmd + ("-race" if race else ""))
+    with Lock("go." + cmd + ("-alt" if ALT else "")):
         os.makedirs(os.path.dirname(out_path), exist_ok=True)
         try:
             shutil.copy(os.path.join(REPO, "go.sum"), os.path.join(hd, "go.sum"))
@@ -368,7 +384,7 @@ class Check:
             log(l)
             self.infra_errors.append("harness %s does not build against the current tree:\n%s" % (cmd, l[-1500:]))
             return None
-        rpath = os.path.join(BUILD, "report.%s.%s.json" % (self.prop, cmd))
+        rpath = os.path.join(BUILD, "report%s.%s.%s.json" % ("-alt" if ALT else "", self.prop, cmd))
         rc, out, rep = run_harness(path, margs + ["-seed", str(self.seed)] + args, rpath, timeout)
         if rep is None:
             self.infra_errors.append("harness %s produced no report (rc=%d):\n%s" % (cmd, rc, out[-2000:]))
